@@ -282,7 +282,8 @@ class C16(Check):
                  'eol': rng.choice(['\n', '\n', '\r\n']),
                  # byte-oriented protocol with replies of variable length: getFullReply reads the body separately
                  'varlen': rng.random() < 0.5,
-                 'cb_comm': rng.random() < 0.3, 'cb_raise': rng.random() < 0.5}
+                 'cb_comm': rng.random() < 0.3, 'cb_raise': rng.random() < 0.5,
+                 'slow_state_cb': rng.choice([None, None, 0.05, 0.3])}
         return {'shape': shape, 'ops': ops, 'faults': faults}
 
     def shrink_candidates(self, case):
@@ -368,7 +369,12 @@ class C16(Check):
         io.registerReconnectCallback('init', init_device)
         io.registerReconnectCallback('probe', on_reconnect)
         connhist = ctx['connhist'] = []
-        io.addCallback('is_connected', lambda *a: connhist.append((sim.vnow(), a[0], len(a) > 1)))
+        def state_cb(*a):
+            connhist.append((sim.vnow(), a[0], len(a) > 1))
+            if shape.get('slow_state_cb'):
+                # an application callback on the connection state which takes a moment (writes a log entry, ...)
+                time.sleep(shape['slow_state_cb'])
+        io.addCallback('is_connected', state_cb)
         t_start = sim.vnow()
 
         def caller(tid):
@@ -796,8 +802,15 @@ class C16(Check):
         # after the faults stopped the communicator heals
         if ctx['stuck']:
             hist = ctx['connhist']
-            raced = len(hist) >= 2 and hist[-1][1] is True and hist[-2][1] is False and hist[-1][0] - hist[-2][0] < 0.01
-            res.append(Violation('C16.not-healed', 'connected-flag-set-after-close' if raced else 'connected-flag-not-cleared',
+            raced = len(hist) >= 2 and hist[-1][1] is True and hist[-2][1] is False
+            site = 'connected-flag-set-after-close' if raced else 'connected-flag-not-cleared'
+            last_ok = max((t for (t, port, o, _task) in ctx['connect_log'] if port == PORT and o == 'ok'), default=None)
+            if raced and last_ok is not None and last_ok >= hist[-2][0] - 1e-9:
+                # the last connection was opened after the flag had gone False, i.e. by the reconnect which set it True
+                # again - and it is gone: somebody closed a connection which was not his (not the stale True of a
+                # read wrapper, where the connection is opened before the False)
+                site = 'fresh-connection-closed'
+            res.append(Violation('C16.not-healed', site,
                                  f'is_connected is True but there is no connection: every call fails with "disconnected" '
                                  f'and no reconnect is attempted any more; connect log {ctx["connect_log"][-3:]}'))
         elif not ctx['healed']:
